@@ -113,20 +113,30 @@ fn charset_table(ctx: &Ctx, rep: &mut Report) {
         for drawing in [false, true] {
             for slot in [0u8, 1u8] {
                 for spell8 in [false, true] {
-                    let mut vt = build_vt(1, 1, Some(0));
-                    let desig = format!(
-                        "\x1b{}{}",
-                        if slot == 0 { '(' } else { ')' },
-                        if drawing { '0' } else { 'B' }
-                    );
-                    let _ = vt.feed_str(&desig);
-                    let _ = vt.feed_str(if slot == 0 { "\x0f" } else { "\x0e" });
-                    if spell8 {
-                        vt.feed(ch);
-                    } else {
-                        let _ = vt.feed_str(&ch.to_string());
-                    }
-                    let got = vt.view()[0].cells()[0].char();
+                    let got = crate::engine::guarded(|| {
+                        let mut vt = build_vt(1, 1, Some(0));
+                        let desig = format!(
+                            "\x1b{}{}",
+                            if slot == 0 { '(' } else { ')' },
+                            if drawing { '0' } else { 'B' }
+                        );
+                        let _ = vt.feed_str(&desig);
+                        let _ = vt.feed_str(if slot == 0 { "\x0f" } else { "\x0e" });
+                        if spell8 {
+                            vt.feed(ch);
+                        } else {
+                            let _ = vt.feed_str(&ch.to_string());
+                        }
+                        vt.view()[0].cells()[0].char()
+                    });
+                    let got = match got {
+                        Ok(g) => g,
+                        Err(p) => {
+                            emit_violation(ctx, rep, "C04", json!({"part":"charset-table","code":code,"drawing":drawing,"slot":slot,
+                                "oracle":"panic","observed":p}));
+                            return;
+                        }
+                    };
                     let want = if drawing && (0x60..=0x7e).contains(&code) {
                         GFX[(code - 0x60) as usize]
                     } else {
@@ -151,12 +161,16 @@ fn charset_table(ctx: &Ctx, rep: &mut Report) {
         .filter_map(|&code| {
             let ch = char::from_u32(code).unwrap();
             for drawing in [true, false] {
-                let mut vt = build_vt(1, 1, Some(0));
-                let _ = vt.feed_str(if drawing { "\x1b(0" } else { "\x1b)0" });
-                vt.feed(ch);
-                let got = vt.view()[0].cells()[0].char();
-                if got != ch {
-                    return Some((code, drawing, got));
+                let got = crate::engine::guarded(|| {
+                    let mut vt = build_vt(1, 1, Some(0));
+                    let _ = vt.feed_str(if drawing { "\x1b(0" } else { "\x1b)0" });
+                    vt.feed(ch);
+                    vt.view()[0].cells()[0].char()
+                });
+                match got {
+                    Ok(g) if g == ch => {}
+                    Ok(g) => return Some((code, drawing, g)),
+                    Err(_) => return Some((code, drawing, '\u{fffd}')),
                 }
             }
             None
